@@ -1,10 +1,12 @@
 import OrsoVerif.Model.Wire
+import OrsoVerif.Drv.C03
 import OrsoVerif.Drv.C04
 
 open Wire
 
 def dispatch (prop op : String) (args : List PyVal) : Option (List PyVal) :=
   match prop with
+  | "C03" => Drv.C03.handle op args
   | "C04" => Drv.C04.handle op args
   | _ => none
 
